@@ -1,5 +1,196 @@
 import FcpptModel.Prelude.Proto
-/-! Driver for C11 — placeholder until the property's model is built. -/
+import FcpptModel.Spec.C11
+/-!
+Driver for C11.  A history starts with `reset`; every line prints `<status> <dump>`.
+
+Intrusive lists (`k` < 8 list ids, `e` < 16 element ids):
+
+* `L k`      `new list`                      * `E e k`   `new elem(list_k)`
+* `d e`      `delete e`                      * `u e`     `e->unlink()`
+* `M e2 e`   `new elem(std::move(*e))`       * `A a b`   `*a = std::move(*b)`
+* `LM k2 k`  `new list(std::move(*k))`       * `LA k k2` `*k = std::move(*k2)`
+* `LD k`     `delete list k`
+
+dump: for every live list `Lk=<forward walk>|<backward walk>|<empty()>`, then for every live node
+`name:prev,next`.
+
+Signals (`s` < 8, connections `x` < 16; callbacks `f`, unregister ids `u`, combiner ids `c` numbers):
+
+* `SN s c`        `new object<int(int), unregister::base>(combiner_c)`
+* `PN s c`        `new object<int(int), signal::base>(combiner_c)`      (no unregister functions)
+* `SC x s f u`    `x = s.connect(callback_f, unregister_u)`   (`PC x s f` for the plain base)
+* `SX x`          `x.reset()`
+* `SM s2 s`, `SA s s2`, `SD s`   move-construct, move-assign, destroy
+* `call s init arg`
+
+dump: for every live signal `Ss=<invoked callbacks>:<result>|<empty()>` (called with init 1, arg 2),
+then `unreg=<u>:<count>,…`.
+
+The suffix ` #spec=…` is the judge: `ok` when the abstract state `Spec.run` predicts exactly the walks
+the model produced, `-` once a history left the guard of the theorems (element move from an
+unlinked source), `BAD` otherwise (a `BAD` is a violation, see props/c11.py).
+-/
 namespace Fcppt.C11.Drv
-def main : IO Unit := Fcppt.Proto.run (fun _ => "not-built")
+open Fcppt.Proto Fcppt.C11
+
+def maxLists : Nat := 8
+def maxElems : Nat := 16
+def walkCap : Nat := 64
+
+def nodeName : Node → String
+  | .head k => s!"h{k}"
+  | .elem e => s!"e{e}"
+
+def names (l : List Node) : String := if l.isEmpty then "-" else ",".intercalate (l.map nodeName)
+
+def walkStr (r : M (List Node)) : String :=
+  match r with
+  | .ok l => names l
+  | .error .fuel => "overrun"
+  | .error f => "fault:" ++ f.name
+
+structure St where
+  sig : Sig.State := Sig.State.empty
+  spec : Option Spec.Rings := some []
+  dead : Bool := false
+  plain : List Nat := []         -- signals created with `PN` (bookkeeping only: which harness table)
+
+def allNodes : List Node := (List.range maxLists).map Node.head ++ (List.range maxElems).map Node.elem
+
+def cbFn (f arg : Nat) : Nat := (f * 7 + arg) % 1000
+def combFn (c acc x : Nat) : Nat := (acc * 31 + x + c) % 1000003
+
+def listDump (σ : Store) : String :=
+  let ls := (List.range maxLists).filter (fun k => σ.live (.head k))
+  let a := ls.map fun k =>
+    let e := match listEmpty σ (.head k) with | .ok b => b01 b | .error f => "fault:" ++ f.name
+    s!"L{k}={walkStr (walk σ (.head k) walkCap)}|{walkStr (walkBack σ (.head k) walkCap)}|{e}"
+  let nm := fun n => if σ.live n then nodeName n else "?"      -- a dangling link has no name
+  let b := (allNodes.filter σ.live).map fun n => s!"{nodeName n}:{nm (σ.prev n)},{nm (σ.next n)}"
+  " ".intercalate (a ++ b)
+
+def callStr (st : Sig.State) (s init arg : Nat) : String :=
+  match Sig.call cbFn combFn st s walkCap init arg with
+  | .ok (fs, r) => s!"{if fs.isEmpty then "-" else natList fs}:{r}"
+  | .error .fuel => "overrun"
+  | .error .emptyDeref => "nocomb"
+  | .error f => "fault:" ++ f.name
+
+def sigDump (st : Sig.State) : String :=
+  let ss := (List.range maxLists).filter (fun s => st.store.live (.head s))
+  let a := ss.map fun s =>
+    let e := match listEmpty st.store (.head s) with | .ok b => b01 b | .error f => "fault:" ++ f.name
+    s!"S{s}={callStr st s 1 2}|{e}"
+  let us := (List.range 64).filter (fun u => st.unregCount u > 0)
+  let b := "unreg=" ++ (if us.isEmpty then "-" else ",".intercalate (us.map fun u => s!"{u}:{st.unregCount u}"))
+  " ".intercalate (a ++ [b])
+
+/-- what every live signal would invoke in state `st` (the harness asks this from inside the
+unregister function, i.e. between `unlink()` and `~base()` of the dying connection) -/
+def sigCalls (st : Sig.State) : String :=
+  let ss := (List.range maxLists).filter (fun s => st.store.live (.head s))
+  if ss.isEmpty then "-" else ",".intercalate (ss.map fun s => s!"S{s}={callStr st s 1 2}")
+
+def sawSuffix (st : Sig.State) : Sig.Op → String
+  | .disconnect x =>
+    match st.conn x with
+    | some ⟨_, some _⟩ =>
+      match baseUnlink st.store (.elem x) with
+      | .ok σ => " saw=" ++ sigCalls { st with store := σ }
+      | .error f => " saw=fault:" ++ f.name
+    | _ => " saw=-"
+  | _ => ""
+
+/-- the judge: does the abstract state predict the model's walks and liveness? -/
+def specAgrees (σ : Store) (R : Spec.Rings) : Bool :=
+  (allNodes.all fun n => σ.live n == decide (n ∈ Spec.nodes R)) &&
+  ((List.range maxLists).all fun k =>
+    match Spec.members R k with
+    | none => !σ.live (.head k)
+    | some m => σ.live (.head k) && walk σ (.head k) walkCap == .ok m
+                && walkBack σ (.head k) walkCap == .ok m.reverse)
+
+def specSuffix (st : St) : String :=
+  match st.spec with
+  | none => " #spec=-"
+  | some R => if specAgrees st.sig.store R then " #spec=ok" else " #spec=BAD"
+
+def parseListOp (t : List String) : Option Op :=
+  match t with
+  | ["L", k] => do let k ← k.toNat?; guard (k < maxLists); pure (.newList k)
+  | ["E", e, k] => do let e ← e.toNat?; let k ← k.toNat?; guard (e < maxElems ∧ k < maxLists); pure (.newElem e k)
+  | ["d", e] => do let e ← e.toNat?; guard (e < maxElems); pure (.delElem e)
+  | ["u", e] => do let e ← e.toNat?; guard (e < maxElems); pure (.unlink e)
+  | ["M", e2, e] => do let e2 ← e2.toNat?; let e ← e.toNat?; guard (e2 < maxElems ∧ e < maxElems); pure (.moveCtor e2 e)
+  | ["A", a, b] => do let a ← a.toNat?; let b ← b.toNat?; guard (a < maxElems ∧ b < maxElems); pure (.moveAssign a b)
+  | ["LM", k2, k] => do let k2 ← k2.toNat?; let k ← k.toNat?; guard (k2 < maxLists ∧ k < maxLists); pure (.listMoveCtor k2 k)
+  | ["LA", k, k2] => do let k ← k.toNat?; let k2 ← k2.toNat?; guard (k < maxLists ∧ k2 < maxLists); pure (.listMoveAssign k k2)
+  | ["LD", k] => do let k ← k.toNat?; guard (k < maxLists); pure (.delList k)
+  | _ => none
+
+/-- signal operation + whether it addresses the plain (`P…`) family -/
+def parseSigOp (t : List String) : Option (Sig.Op × Bool) :=
+  match t with
+  | ["SN", s, c] => do let s ← s.toNat?; let c ← c.toNat?; guard (s < maxLists ∧ c < 64); pure (.newSig s c, false)
+  | ["PN", s, c] => do let s ← s.toNat?; let c ← c.toNat?; guard (s < maxLists ∧ c < 64); pure (.newSig s c, true)
+  | ["SC", x, s, f, u] => do
+    let x ← x.toNat?; let s ← s.toNat?; let f ← f.toNat?; let u ← u.toNat?
+    guard (x < maxElems ∧ s < maxLists ∧ f < 100 ∧ u < 64); pure (.connect x s f (some u), false)
+  | ["PC", x, s, f] => do
+    let x ← x.toNat?; let s ← s.toNat?; let f ← f.toNat?
+    guard (x < maxElems ∧ s < maxLists ∧ f < 100); pure (.connect x s f none, true)
+  | ["SX", x] => do let x ← x.toNat?; guard (x < maxElems); pure (.disconnect x, false)
+  | ["SM", s2, s] => do let s2 ← s2.toNat?; let s ← s.toNat?; guard (s2 < maxLists ∧ s < maxLists); pure (.moveCtor s2 s, false)
+  | ["SA", s, s2] => do let s ← s.toNat?; let s2 ← s2.toNat?; guard (s < maxLists ∧ s2 < maxLists); pure (.moveAssign s s2, false)
+  | ["SD", s] => do let s ← s.toNat?; guard (s < maxLists); pure (.delSig s, false)
+  | _ => none
+
+/-- signals of the two families are different C++ types: an operation may not mix them -/
+def familyOk (st : St) : Sig.Op → Bool → Bool
+  | .newSig _ _, _ => true
+  | .connect _ s _ _, p => st.plain.contains s == p
+  | .moveCtor _ _, _ => true
+  | .moveAssign s s2, _ => st.plain.contains s == st.plain.contains s2
+  | _, _ => true
+
+def advanceSpec (st : St) (op : Op) : Option Spec.Rings :=
+  match st.spec with
+  | some R => if Spec.valid R op then some (Spec.step R op) else none
+  | none => none
+
+def handle (st : St) (t : List String) : St × String :=
+  if t = ["reset"] then ({}, "ok") else
+  if st.dead then (st, "dead") else
+  match parseListOp t with
+  | some op =>
+    if !lifetimeOk st.sig.store op then (st, "bad-op") else
+    match step st.sig.store op with
+    | .ok σ =>
+      let st' := { st with sig := { st.sig with store := σ }, spec := advanceSpec st op }
+      (st', "ok" ++ (if (listDump σ).isEmpty then "" else " " ++ listDump σ) ++ specSuffix st')
+    | .error f => ({ st with dead := true }, "fault:" ++ f.name)
+  | none =>
+  match parseSigOp t with
+  | some (op, p) =>
+    if !Sig.lifetimeOk st.sig op || !familyOk st op p then (st, "bad-op") else
+    match Sig.step st.sig op with
+    | .ok s' =>
+      let plain := match op with
+        | .newSig s _ => if p then s :: st.plain.erase s else st.plain.erase s
+        | .moveCtor s2 s => if st.plain.contains s then s2 :: st.plain.erase s2 else st.plain.erase s2
+        | _ => st.plain
+      let st' := { st with sig := s', spec := advanceSpec st op.toList, plain := plain }
+      (st', "ok " ++ sigDump s' ++ sawSuffix st.sig op ++ specSuffix st')
+    | .error f => ({ st with dead := true }, "fault:" ++ f.name)
+  | none =>
+  match t with
+  | ["call", s, i, a] =>
+    match s.toNat?, i.toNat?, a.toNat? with
+    | some s, some i, some a =>
+      if s < maxLists ∧ st.sig.store.live (.head s) ∧ i < 1000 ∧ a < 1000 then (st, "ok " ++ callStr st.sig s i a) else (st, "bad-op")
+    | _, _, _ => (st, "bad-op")
+  | _ => (st, "bad-op")
+
+def main : IO Unit := Proto.runState ({} : St) handle
+
 end Fcppt.C11.Drv
